@@ -32,7 +32,7 @@ def _check_loops_from_task(task: Task, visited_tasks: Set[int], validated: Set[i
     if task.id in visited_tasks:
         raise RuntimeError(
             "Found circle",
-            [str(t) + "-->" for t in visited_tasks] + [str(task.id) + ":" + task.name]
+            [str(t) + "-->" for t in visited_tasks] + [str(task.id) + ":" + str(task.name)]
         )
 
     visited_tasks.add(task.id)
